@@ -14,6 +14,7 @@ HNext == \/ \E sp \in {"R", "U"}, l \in Levels, s \in Schemes : Configure(sp, l,
          \/ InitGrids /\ Rec(<<"init_grids">>)
          \/ NrCall(NSpin(ks.spin)) /\ Rec(<<"nr_call", NSpin(ks.spin)>>)
          \/ \E m \in Mols : Reset(m) /\ Rec(<<"reset", m>>)
+         \/ MoveInPlace /\ Rec(<<"move_in_place">>)
          \/ DensityFit /\ Rec(<<"density_fit">>)
          \/ ToOtherSpin /\ Rec(<<"to_other_spin">>)
          \/ \E meth \in BlockedMethods : Unsupported(meth) /\ Rec(<<"unsupported", meth>>)
